@@ -569,6 +569,9 @@ func (e *Engine) designatorLocs(env *SpecEnv, d SExpr) []heapLoc {
 		if x.Name == "alloc" {
 			return []heapLoc{{allocHeap, "Int", ""}}
 		}
+		if x.Name == "lastCopied" {
+			return []heapLoc{{"GH_io.lastCopied", "Int", ""}}
+		}
 		if g := e.lookupGhost(env, x.Name); g != nil {
 			return []heapLoc{{"GH_" + g.Pkg.PkgPath + "." + g.Name, e.sortOf(g.Type), ""}}
 		}
